@@ -294,7 +294,24 @@ def scsv_tabulation(ctx, report, c, p, q, RULE='C05.R3'):
         def get_param(self):
             return Obj(item_num_size=2, item_size=2)
 
-    def run_compose(seq, fb, rn):
+    class Extensions(Native):
+        """the extension list of the hello: iteration, length and the lookup by type (KeyError when there is none)"""
+        def __init__(self, types):
+            self.types = list(types)
+
+        def __iter__(self):
+            return iter([Obj(extension_type=t) for t in self.types])
+
+        def __len__(self):
+            return len(self.types)
+
+        def get_item_by_type(self, extension_type):
+            for t in self.types:
+                if t == extension_type:
+                    return Obj(extension_type=t)
+            raise KeyError(extension_type)
+
+    def run_compose(seq, fb, rn, extension_types=()):
         del log[:]
 
         def extra(n, ev):
@@ -305,7 +322,7 @@ def scsv_tabulation(ctx, report, c, p, q, RULE='C05.R3'):
                 return b''
             return NotImplemented
         me = Obj(cipher_suites=Suites([suite(x) for x in seq]), fallback_scsv=fb, empty_renegotiation_info_scsv=rn,
-                 protocol_version='V', random='R', session_id='S', compression_methods='C', extensions=[])
+                 protocol_version='V', random='R', session_id='S', compression_methods='C', extensions=Extensions(extension_types))
         hook = class_call_hook(c, extra, model)
         Evaluator({'self': me}, hook, hook.name_hook_for(c.module, names)).function(q.node)
         return [x for l in log for x in l]
@@ -330,10 +347,15 @@ def scsv_tabulation(ctx, report, c, p, q, RULE='C05.R3'):
                     report.add(RULE, p.construct + '@fold[else]', 'suites %s: the parser keeps %s, expected the ordinary suites %s in order' % (
                         [hex(x) for x in seq], [hex(x) if isinstance(x, int) else x for x in got], [hex(x) for x in want]))
                     return True
-        for seq in ((), (A,), (A, B), (B, A, A)):
+        from ..miniexec import EnumVal
+        et = model.try_cls('TlsExtensionType')
+        reneg = [EnumVal.of(et, 'RENEGOTIATION_INFO')] if et is not None and 'RENEGOTIATION_INFO' in (et.enum_members or {}) else []
+        # what is written for a flag does not depend on the extensions the hello carries (the parser sets the flag for the value in
+        # the suite list and for nothing else): a hello with and without the renegotiation_info extension
+        for seq, ext in [(s, ()) for s in ((), (A,), (A, B), (B, A, A))] + [(s, tuple(reneg)) for s in ((A,), (A, B)) if reneg]:
             for fb, rn in itertools.product((False, True), repeat=2):
                 report.count(RULE)
-                out = run_compose(seq, fb, rn)
+                out = run_compose(seq, fb, rn, ext)
                 for marker, flag, code, on in (('FALLBACK_SCSV', 'fallback_scsv', FB, fb), ('EMPTY_RENEGOTIATION_INFO_SCSV', 'empty_renegotiation_info_scsv', RN, rn)):
                     if (out.count(code) == 1) != on or out.count(code) > 1:
                         report.add(RULE, q.construct + '@unfold[%s]' % marker, 'compose does not emit %s exactly when self.%s is set (suites %s, flag %s: written %s)' % (
